@@ -170,7 +170,9 @@ class EngineBase:
 
     def oblige(self, name, kind, st, goal, line=0, expect="unsat"):
         g = goal.s if isinstance(goal, T) else goal
-        o = Obligation(name, kind, None, list(st.pc), g, line, self.cur, expect)
+        if "SPEC-ERROR" in g:
+            expect = "specerror"
+        o = Obligation(name, kind, None, [p for p in st.pc if "SPEC-ERROR" not in p], g, line, self.cur, expect)
         o.prelude = self.ctx  # resolved at end of path (needs all decls)
         self.path_obls.append(o)
 
